@@ -52,6 +52,11 @@ Fixpoint list_eqb2 {A B} (f : A -> B -> bool) (a : list A) (b : list B) : bool :
   | _, _ => false
   end.
 
+(* the reader does not look at the field's presence (C12's business) *)
+Definition c04_proj (o : fout) : fout :=
+  FO (fo_json o) (fo_number o) (fo_kind o) (fo_rep o) (fo_opt o) false (fo_val o)
+     (fo_ext o) (fo_list o) (fo_key o) (fo_desc o).
+
 (* an object: environment, declared properties, the annotations emitted for
    them, and what the reflector read back (None: a reflected property the
    declaration language cannot express) *)
@@ -62,7 +67,7 @@ Definition c04_check (c : c04case) : bool :=
   match c with
   | C04Case env ds obs refl =>
       match write_object env ds with
-      | Ok os => list_eqb fout_eqb os obs
+      | Ok os => list_eqb (fun a b => fout_eqb (c04_proj a) (c04_proj b)) os obs
       | _ => false
       end &&
       match read_object env obs, refl with
